@@ -206,6 +206,12 @@ class RunTaskExecutable(Operation):
             )
 
         if self._version_to_record is not None:
+            if not self._output_path.is_dir():
+                # The task removed its own output directory. There is nothing
+                # to record: a version always has its output directory.
+                raise TaskFailed(task_identifier=self._identifier).add_extra_context(
+                    "Its output directory no longer exists."
+                )
             ctx.version_index.insert_output_version(
                 self._identifier, self._version_to_record
             )
